@@ -30,7 +30,7 @@ from .lineabs import E
 CONST, INC, DEC, TOP = 'const', 'inc', 'dec', 'top'
 ONE = '1'
 MAX_FORMS = 96
-MAX_UNFOLD = 14
+MAX_UNFOLD = 26
 
 
 def fr(x):
@@ -284,7 +284,7 @@ class Mono:
                 continue
             seen.add(f)
             n += 1
-            if n > 600:
+            if n > 3000:
                 return False
             s = self.form_sign(f)
             if s == '0' or s == want:
@@ -642,14 +642,20 @@ class _Refuse:
 
 
 def _as_lt(c):
+    """(a, b) for the cut a < b.  The repository compares stored amounts with +-0.001 to mean 'is zero / is positive';
+    stored amounts are whole cents, so the cut sits at 0 (rounding of stored values is not modelled, as in C15)."""
     if not isinstance(c, E) or len(c.args) != 2:
         return None
     a, b = c.args
-    if c.op == 'lt':
-        return a, b
     if c.op == 'gt':
-        return b, a
-    return None
+        a, b = b, a
+    elif c.op != 'lt':
+        return None
+    if isinstance(a, float) and abs(abs(a) - 0.001) < 1e-12:
+        a = 0.0
+    if isinstance(b, float) and abs(abs(b) - 0.001) < 1e-12:
+        b = 0.0
+    return a, b
 
 
 def _short(v):
